@@ -522,7 +522,7 @@ fn check<P: Prop>(tier: Tier) -> i32 {
     for v in viols {
         groups.entry(v.viol.full_sig()).or_default().push(v);
     }
-    let replay_dir = root().join("replays");
+    let replay_dir = std::env::var("CSIM_REPLAY_DIR").map(PathBuf::from).unwrap_or_else(|_| root().join("replays"));
     std::fs::create_dir_all(&replay_dir).unwrap();
     let mut new_violations: Vec<(String, PathBuf)> = vec![];
     let mut known_matched: BTreeMap<String, (String, u64)> = BTreeMap::new();
@@ -628,7 +628,7 @@ fn check<P: Prop>(tier: Tier) -> i32 {
         "wall_s": wall,
         "violations": new_violations.len(),
     });
-    let evdir = root().join("evidence");
+    let evdir = std::env::var("CSIM_EVIDENCE_DIR").map(PathBuf::from).unwrap_or_else(|_| root().join("evidence"));
     std::fs::create_dir_all(&evdir).unwrap();
     std::fs::write(evdir.join(format!("{}.json", id)), serde_json::to_vec_pretty(&ev).unwrap()).unwrap();
 
